@@ -117,3 +117,48 @@ Theorem C03_genuine_flank_uses_the_median_crossing : forall (rise : bool) sig s 
   level_crossings rise mid 0 seg <> [].
 Proof. exact flank_mid_genuine. Qed.
 Print Assumptions C03_genuine_flank_uses_the_median_crossing.
+
+(* alternating sequences that start AND end with the same kind (find_extrema with
+   first_extrema = None returns these): p0 < t0 < p1 < ... < t(n-1) < pn has n decays (peak k ->
+   trough k) and n rises (trough k -> peak k+1); t0 < p0 < ... < p(n-1) < tn symmetrically.
+   Each midpoint is again flank_mid of its own flank, so C03_midpoint_between_extrema,
+   C03_midpoint_definition and C03_genuine_flank_uses_the_median_crossing apply to it. *)
+Theorem C03_one_midpoint_per_flank_peak_both_ends : forall sig peaks troughs,
+  length peaks = S (length troughs) -> troughs <> [] ->
+  (forall k, k < length troughs -> (nth k peaks 0 < nth k troughs 0 < nth (S k) peaks 0)%Z) ->
+  Forall (fun z => (0 <= z < Z.of_nat (length sig))%Z) peaks ->
+  Forall (fun z => (0 <= z < Z.of_nat (length sig))%Z) troughs ->
+  exists rises decays, find_zerox sig peaks troughs = Ok (rises, decays) /\
+    length decays = length troughs /\ length rises = length troughs /\
+    (forall k, k < length troughs -> exists m, nth_error decays k = Some m /\
+        flank_mid false sig (nth k peaks 0%Z) (nth k troughs 0%Z) = Ok m) /\
+    (forall k, k < length troughs -> exists m, nth_error rises k = Some m /\
+        flank_mid true sig (nth k troughs 0%Z) (nth (S k) peaks 0%Z) = Ok m).
+Proof. exact find_zerox_peak_both_ends. Qed.
+Print Assumptions C03_one_midpoint_per_flank_peak_both_ends.
+
+Theorem C03_one_midpoint_per_flank_trough_both_ends : forall sig peaks troughs,
+  length troughs = S (length peaks) -> peaks <> [] ->
+  (forall k, k < length peaks -> (nth k troughs 0 < nth k peaks 0 < nth (S k) troughs 0)%Z) ->
+  Forall (fun z => (0 <= z < Z.of_nat (length sig))%Z) peaks ->
+  Forall (fun z => (0 <= z < Z.of_nat (length sig))%Z) troughs ->
+  exists rises decays, find_zerox sig peaks troughs = Ok (rises, decays) /\
+    length rises = length peaks /\ length decays = length peaks /\
+    (forall k, k < length peaks -> exists m, nth_error rises k = Some m /\
+        flank_mid true sig (nth k troughs 0%Z) (nth k peaks 0%Z) = Ok m) /\
+    (forall k, k < length peaks -> exists m, nth_error decays k = Some m /\
+        flank_mid false sig (nth k peaks 0%Z) (nth (S k) troughs 0%Z) = Ok m).
+Proof. exact find_zerox_trough_both_ends. Qed.
+Print Assumptions C03_one_midpoint_per_flank_trough_both_ends.
+
+(* the trough-first counterpart of C03_ordering_peak_first *)
+Theorem C03_ordering_trough_first : forall sig peaks troughs rises decays,
+  interleaved troughs peaks -> troughs <> [] ->
+  Forall (fun z => (0 <= z < Z.of_nat (length sig))%Z) peaks ->
+  Forall (fun z => (0 <= z < Z.of_nat (length sig))%Z) troughs ->
+  find_zerox sig peaks troughs = Ok (rises, decays) ->
+  length rises = length troughs /\ length decays = length troughs - 1 /\
+  (forall k, k < length troughs -> (nth k troughs 0 <= nth k rises 0 <= nth k peaks 0)%Z) /\
+  (forall k, S k < length troughs -> (nth k peaks 0 <= nth k decays 0 <= nth (S k) troughs 0)%Z).
+Proof. exact find_zerox_ordering_trough_first. Qed.
+Print Assumptions C03_ordering_trough_first.
